@@ -571,7 +571,7 @@ class Agg:
     def ren(self, m, relmap=None):
         return Agg(m.get(self.res, self.res) if self.res else None, self.agg, [m.get(b, b) for b in self.bound],
                    (relmap or {}).get(self.rel, self.rel), [a.ren(m) for a in self.args], self.param,
-                   self.res_read.replace(self.res, m.get(self.res, self.res)) if self.res_read and self.res else self.res_read,
+                   __import__('re').sub(r'\b%s\b' % __import__('re').escape(self.res), m.get(self.res, self.res), self.res_read) if self.res_read and self.res else self.res_read,
                    self.res_conv)
 
     def binds(self):
